@@ -131,6 +131,7 @@ type Collector struct {
 	nt    map[string]struct{}
 	start time.Time
 	spec  *Spec
+	test  string
 }
 
 func outDir() string {
@@ -235,6 +236,7 @@ type violationFile struct {
 	Seed  uint64            `json:"seed"`
 	Shard string            `json:"shard"`
 	Env   map[string]string `json:"env"`
+	Test  string            `json:"test,omitempty"` // the Go test that produced it (a property may have several modes)
 }
 
 func relevantEnv() map[string]string {
@@ -250,7 +252,7 @@ func relevantEnv() map[string]string {
 }
 
 func (c *Collector) saveViolation(cjs []byte, err error) {
-	v := violationFile{ID: c.sf.ID, Error: err.Error(), Case: cjs, Seed: c.sf.Seed, Shard: c.sf.Shard, Env: relevantEnv()}
+	v := violationFile{ID: c.sf.ID, Error: err.Error(), Case: cjs, Seed: c.sf.Seed, Shard: c.sf.Shard, Env: relevantEnv(), Test: c.test}
 	js, _ := json.MarshalIndent(&v, "", " ")
 	p := filepath.Join(outDir(), fmt.Sprintf("%s.%s.violation.json", c.sf.ID, c.sf.Shard))
 	_ = ioutil.WriteFile(p, js, 0o644)
@@ -310,6 +312,7 @@ func RunProperty(t *testing.T, spec *Spec) {
 		spec.Level = "exploration"
 	}
 	col := newCollector(spec)
+	col.test = t.Name()
 	defer col.flush()
 	known := knownFor(spec.ID)
 
